@@ -110,43 +110,62 @@ def r1(chk, prog, variant):
         return
     A = subs[0]
     cfg = cfg_of(put)
-    # value 'new count' = A.res - 1 (or A.res + (-1)); find the branch on it
-    regs, cons = derived_values(put, A.res, through_arith=True)
-    branches = []
-    for u, r in cons:
-        if u.op == "icmp":
-            for b in cfg.users(u.res):
-                if b.op == "br" and len(b.x["targets"]) == 2:
-                    branches.append((u, b))
+    # the conditional branches whose condition is a function of the decrement's result (through arithmetic, comparisons and
+    # boolean conversions): evaluate the condition for old counts 1, 2, 3, 2^32-1
+    def depends(v, seen=None):
+        seen = seen if seen is not None else set()
+        if v.kind != "reg" or v.v in seen:
+            return False
+        seen.add(v.v)
+        if v.v == A.res:
+            return True
+        d = put.defs.get(v.v)
+        if d is None or d.op not in ("sub", "add", "icmp", "zext", "sext", "trunc", "bitcast", "xor", "and", "or", "select"):
+            return False
+        return any(depends(o, seen) for o in d.ops)
+
+    def ev(v, old):
+        if v.kind == "int":
+            return v.v
+        if v.kind != "reg":
+            return None
+        if v.v == A.res:
+            return old
+        d = put.defs.get(v.v)
+        if d is None:
+            return None
+        if d.op in ("sub", "add", "xor", "and", "or"):
+            a, b = ev(d.ops[0], old), ev(d.ops[1], old)
+            if a is None or b is None:
+                return None
+            bits = int(d.type[1:]) if d.type[1:].isdigit() else 32
+            r = {"sub": a - b, "add": a + b, "xor": a ^ b, "and": a & b, "or": a | b}[d.op]
+            return r % (1 << bits)
+        if d.op == "icmp":
+            a, b = ev(d.ops[0], old), ev(d.ops[1], old)
+            if a is None or b is None:
+                return None
+            return 1 if _icmp(d.x["pred"], a, b) else 0
+        if d.op in ("zext", "trunc", "bitcast"):
+            return ev(d.ops[0], old)
+        if d.op == "sext":
+            a = ev(d.ops[0], old)
+            return a
+        if d.op == "select":
+            c = ev(d.ops[0], old)
+            return None if c is None else ev(d.ops[1] if c else d.ops[2], old)
+        return None
+    branches = [b for b in put.instrs() if b.op == "br" and len(b.x["targets"]) == 2 and b.ops and depends(b.ops[0])]
     if len(branches) != 1:
         chk.refuted(rid, "json_object_put", "destroy decision", A.locstr(),
                     "the decrement's result feeds %d conditional branches (expected exactly one)" % len(branches), variant=variant)
         return
-    cmp_, br = branches[0]
+    br = branches[0]
+    cmp_ = put.defs.get(br.ops[0].v) or br
 
     def newcount(old):
-        # evaluate the arithmetic between A.res and the compared operand
-        def ev(v):
-            if v.kind == "int":
-                return v.v
-            if v.kind == "reg":
-                if v.v == A.res:
-                    return old
-                d = put.defs.get(v.v)
-                if d is None:
-                    return None
-                if d.op in ("sub", "add"):
-                    a, b = ev(d.ops[0]), ev(d.ops[1])
-                    if a is None or b is None:
-                        return None
-                    return (a - b if d.op == "sub" else a + b) % (1 << 32)
-                if d.op in ("zext", "sext", "trunc", "bitcast"):
-                    return ev(d.ops[0])
-            return None
-        a, b = ev(cmp_.ops[0]), ev(cmp_.ops[1])
-        if a is None or b is None:
-            return None
-        return _icmp(cmp_.x["pred"], a, b)
+        r = ev(br.ops[0], old)
+        return None if r is None else bool(r)
     outs = {old: newcount(old) for old in (1, 2, 3, 0xFFFFFFFF)}
     if None in outs.values():
         chk.undecided(rid, "json_object_put", "destroy decision", cmp_.locstr(), "cannot evaluate the comparison on the decrement result", variant=variant)
